@@ -677,3 +677,184 @@ def replay_pipeline(fl, FA, vals=None, seed=0, budget=150, exclude_known=True, *
                                     f"{[(v.name, j(float(v.value)), v.enabled) for v in e.input_variables]}, blocks "
                                     f"{[(b.name, b.enabled, [(r.text, r.enabled) for r in b.rules]) for b in e.rule_blocks]}, step {step}"}
     return {"failed": False, "cases": cases, "distinct": len(seen)}
+
+
+def _hist_engine(fl, cfg_seed):
+    import random
+    rng = random.Random(cfg_seed)
+    e = _gen_engine(fl, rng)
+    for ov in e.output_variables:
+        ov.lock_previous = False
+        if isinstance(ov.defuzzifier, fl.WeightedDefuzzifier) and rng.random() < 0.7:      # terms holding references to the engine
+            n = len(e.input_variables)
+            ov.terms[0] = fl.Linear("lo", [0.5] * n + [1.0], e)
+            ov.terms[1] = fl.Function.create("hi", f"{e.input_variables[0].name} * 2 + 1", e)
+    for b in e.rule_blocks:
+        b.reload_rules(e)
+    return e
+
+
+def _apply_edit(fl, e, ed):
+    kind = ed[0]
+    if kind == "term":
+        _, vi, ti, attr, val = ed
+        setattr(e.output_variables[vi].terms[ti], attr, val)
+    elif kind == "coef":
+        _, vi, ti, ci, val = ed
+        e.output_variables[vi].terms[ti].coefficients[ci] = val            # in place: a shared list would leak into the other engine
+    elif kind == "weight":
+        _, bi, ri, val = ed
+        e.rule_blocks[bi].rules[ri].weight = val
+    elif kind == "text":
+        _, bi, ri, txt = ed
+        r = e.rule_blocks[bi].rules[ri]
+        r.text = txt
+        r.load(e)
+    elif kind == "range":
+        _, vi, lo, hi = ed
+        e.output_variables[vi].range = (lo, hi)
+
+
+def _outputs(fl, e):
+    import numpy as np
+    # a disabled output variable is left untouched by processing (C12), so its value is not an output of the step
+    return [(ov.name, float(np.take(np.asarray(ov.value, dtype=float), -1)) if ov.enabled else float("nan"), [(a.term.name, float(a.degree)) for a in ov.fuzzy.terms]) for ov in e.output_variables]
+
+
+def _same_out(FA, a, b):
+    return len(a) == len(b) and all(x[0] == y[0] and FA.same(x[1], y[1], rel=1e-12, abs_=1e-12) and len(x[2]) == len(y[2])
+                                    and all(t[0] == u[0] and FA.same(t[1], u[1], rel=1e-12, abs_=1e-12) for t, u in zip(x[2], y[2])) for x, y in zip(a, b))
+
+
+def replay_history(fl, FA, vals=None, seed=0, budget=60, **kw):
+    """interleavings of {set inputs, process, restart, copy and switch, edit a parameter of the copy, toggle a flag and restore it, edit a rule text
+    and reload}: every processing result equals that of a freshly built engine with the same edits; originals are never affected by their copies"""
+    import random
+    import numpy as np
+    rng = random.Random(seed)
+    cases, seen = 0, set()
+    rows = [0.0, 1.0, 0.5, 0.25, 0.6, 0.4, 0.9, 0.1, float("nan")]
+    for it in range(budget):
+        cfg_seed = rng.randrange(10 ** 9)
+        try:
+            cur = _hist_engine(fl, cfg_seed)
+        except Exception:
+            continue
+        if any(any(c.hedges for c in r.consequent.conclusions[:-1]) for b in cur.rule_blocks for r in b.rules if r.is_loaded()):
+            continue            # region of known finding C07-1
+        edits, kept, trace = [], [], []
+        xs = [float("nan")] * len(cur.input_variables)
+
+        def fresh():
+            f = _hist_engine(fl, cfg_seed)
+            for ed in edits:
+                _apply_edit(fl, f, ed)
+            return f
+
+        def check(tag, flags=None):
+            nonlocal cases
+            ref = fresh()
+            if flags:
+                flags(ref)
+            for v, x in zip(ref.input_variables, xs):
+                v.value = x
+            for v, x in zip(cur.input_variables, xs):
+                pass
+            try:
+                ref.process()
+            except Exception:
+                return None
+            cur.process()
+            cases += 1
+            a, b = _outputs(fl, cur), _outputs(fl, ref)
+            if not _same_out(FA, a, b):
+                j = lambda o: [(n, None if v != v else v, t) for n, v, t in o]
+                return {"failed": True, "cases": cases, "expected": j(b), "observed": j(a),
+                        "call": f"engine seed {cfg_seed}: after {trace} the result of process() differs from a freshly built engine with the same edits {edits} on inputs {[None if x != x else x for x in xs]} ({tag})"}
+            return None
+
+        for step in range(rng.randrange(3, 9)):
+            op = rng.choice(["inputs", "process", "process", "restart", "copy", "edit", "toggle", "retext"])
+            trace.append(op)
+            if op == "inputs":
+                xs = [rng.choice(rows) for _ in cur.input_variables]
+                for v, x in zip(cur.input_variables, xs):
+                    v.value = x
+            elif op == "process":
+                r = check("process")
+                if r:
+                    return r
+            elif op == "restart":
+                cur.restart()
+                xs = [float("nan")] * len(cur.input_variables)
+                r = check("after restart")
+                if r:
+                    return r
+            elif op == "copy":
+                for v, x in zip(cur.input_variables, xs):
+                    v.value = x
+                snap = (cur, str(cur), list(xs), list(edits))
+                kept.append(snap)
+                cur = cur.copy()
+            elif op == "edit":
+                vi = rng.randrange(len(cur.output_variables))
+                ov = cur.output_variables[vi]
+                t0 = ov.terms[0]
+                if isinstance(t0, fl.Linear):
+                    ed = ("coef", vi, 0, 0, rng.choice([2.0, -1.0, 0.25]))
+                elif isinstance(t0, fl.Constant):
+                    ed = ("term", vi, 0, "value", rng.choice([-5.0, 4.0, 0.5]))
+                else:
+                    ed = ("weight", 0, 0, rng.choice([0.5, 0.25, 1.0]))
+                edits.append(ed); _apply_edit(fl, cur, ed)
+            elif op == "toggle":
+                kind = rng.choice(["rule", "block", "out", "in"])
+                if kind == "rule":
+                    bi = rng.randrange(len(cur.rule_blocks)); ri = rng.randrange(len(cur.rule_blocks[bi].rules))
+                    get = lambda e_: e_.rule_blocks[bi].rules[ri]
+                elif kind == "block":
+                    bi = rng.randrange(len(cur.rule_blocks)); get = lambda e_: e_.rule_blocks[bi]
+                elif kind == "out":
+                    vi = rng.randrange(len(cur.output_variables)); get = lambda e_: e_.output_variables[vi]
+                else:
+                    vi = rng.randrange(len(cur.input_variables)); get = lambda e_: e_.input_variables[vi]
+                old = get(cur).enabled
+                get(cur).enabled = not old
+                if rng.random() < 0.4:
+                    cur.restart(); xs = [float("nan")] * len(cur.input_variables); trace.append("restart-while-toggled")
+                r = check(f"{kind} flag toggled", flags=lambda e_: setattr(get(e_), "enabled", not old))
+                get(cur).enabled = old
+                if r:
+                    return r
+                r = check(f"{kind} flag restored")
+                if r:
+                    return r
+            elif op == "retext":
+                bi = rng.randrange(len(cur.rule_blocks)); ri = rng.randrange(len(cur.rule_blocks[bi].rules))
+                rule = cur.rule_blocks[bi].rules[ri]
+                ins = [v.name for v in cur.input_variables]
+                new_ant = rng.choice([f"{ins[0]} is lo", f"{ins[0]} is hi", f"{ins[0]} is not lo or {ins[-1]} is hi", f"{ins[0]} is lo and {ins[-1]} is very hi"])
+                txt = f"if {new_ant} then {rule.consequent.text}"
+                ed = ("text", bi, ri, txt)
+                edits.append(ed); _apply_edit(fl, cur, ed)
+        seen.add((cfg_seed, tuple(trace)))
+        # originals are untouched by whatever happened to their copies
+        for (orig, text0, xs0, edits0) in kept:
+            if str(orig) != text0:
+                return {"failed": True, "cases": cases, "expected": "original engine unchanged after operating/editing its copy", "observed": "FLL of the original changed",
+                        "call": f"engine seed {cfg_seed}: {trace} with edits {edits}"}
+            saved, edits = edits, edits0
+            ref = fresh(); edits = saved
+            for v, x in zip(ref.input_variables, xs0):
+                v.value = x
+            for v, x in zip(orig.input_variables, xs0):
+                v.value = x
+            try:
+                ref.process()
+            except Exception:
+                continue
+            orig.process()
+            if not _same_out(FA, _outputs(fl, orig), _outputs(fl, ref)):
+                return {"failed": True, "cases": cases, "expected": _outputs(fl, ref), "observed": _outputs(fl, orig),
+                        "call": f"engine seed {cfg_seed}: the ORIGINAL engine computes different outputs after its copy was operated/edited: {trace}, edits on the copy {saved}"}
+    return {"failed": False, "cases": cases, "distinct": len(seen)}
